@@ -15,8 +15,8 @@ func init() {
 	register(&Spec{
 		ID: "C09",
 		Decides: "export, import and copy consult the same three getters and agree on which media types are manifests; export writes each digest once (the 'already written' test dominates every write) under a name built from the same validated descriptor whose content it fetches, and compares the number of blob bytes written with the descriptor; " +
-			"on import every manifest push of the OCI path sits in a function appended to the finish list, the list is run from its last entry down and only after the archive was read without error; the Docker path pushes its manifest only after the second pass succeeded; the Docker-loadable manifest names the image by a reference whose digest was cleared.",
-		NotCovered: "the archive state machine over entry orders (only the 'a handler added during the scan requests a rescan' step is checked), links (seeded change C09-1 is value-level and not detected), compression, Docker-format layer re-compression, round-trip equality.",
+			"on import every manifest push of the OCI path sits in a function appended to the finish list, the list is run from its last entry down and only after the archive was read without error; the Docker path pushes its manifest only after the second pass succeeded; the Docker-loadable manifest names the image by a reference whose digest was cleared; a handler registered during the scan requests a rescan; an entry stream has one reader; the Docker manifest.json entry that is imported is the one the selection picked (no constant index next to the selection loop).",
+		NotCovered: "the archive state machine over entry orders (only the 'a handler added during the scan requests a rescan' step is checked), links (seeded change C09-1 is about the string semantics of Rel/Join and not detected), compression, Docker-format layer re-compression, round-trip equality.",
 		Run:        runC09,
 	})
 }
